@@ -373,6 +373,7 @@ static Verdict run_c05(const Case &c)
     }
     Verdict fl = Verdict::fail(m + " [edit " + labels[i] + " on a " + std::to_string(base.size()) + "-byte file, cmode " + std::to_string(e.cmode) + ", hmode " + std::to_string(e.hmode) + ", T=" + std::to_string(e.T) + "]");
     fl.nontrivial = true;
+    fl.slow = r.detail.find("again within 180 s") != std::string::npos;
     fl.classes = v.classes;
     Case rc = c;
     rc.set("kind", "edits");
